@@ -220,24 +220,55 @@ def malformed(ctx, j1, reqs, meta):
                          tags=['accepts-bad-index', 'negative' if bad < 0 else 'too-large'])
             except ValueError:
                 pass
+            except Exception as e:  # noqa
+                ctx.fail(f'json_to_hrg rejects node number {bad} (out of {nn}) with {type(e).__name__}, not ValueError', dict(json=j['rules'][ri]),
+                         repr(e), 'ValueError', tags=['rejects-with-other-exception', 'negative' if bad < 0 else 'too-large'])
             reqs.append(f"C14.fromJson {enc_jrule(j['rules'][ri])}"); meta.append(('mal', None, j['rules'][ri], None))
+
+
+def type_of_numel(rng, n):
+    """a random index type (see ptgen) with n elements"""
+    opts = [('atom', n)]
+    divs = [d for d in range(2, n) if n % d == 0]
+    if divs:
+        d = rng.choice(divs)
+        opts.append(('prod', [('atom', d), ('atom', n // d)]))
+    if n >= 2:
+        a = rng.randint(1, n - 1)
+        opts.append(('sum', [('atom', a), ('atom', n - a)]))
+    return rng.choice(opts)
 
 
 def run_fgg(ctx):
     """FGG round trip: domains, factors (dense and patterned, inf), sum_product"""
-    n = 40 if ctx.quick else 600
+    n = 120 if ctx.quick else 1000
     for k in range(n):
-        shape = gen.random_shape(ctx.rng, recursive=False, n_nts=(1, 3), rules_per_nt=(1, 2), start_arity=(0, 1),
+        shape = gen.random_shape(ctx.rng, recursive=False, n_nts=(1, 3), rules_per_nt=(1, 2), start_arity=(0, 1), dom_sizes=(1, 2, 3, 4, 2),
                                  weights=lambda r: r.choice([0.0, 1.0, 2.0, 3.0, math.inf, 0.5]))
         fgg, info = gen.build_fgg(shape, ids=ctx.rng.choice(['implicit', 'explicit']),
                                   domain_kind=ctx.rng.choice(['finite', 'range']), dtype=torch.get_default_dtype())
         # make some weights patterned (diagonal) where the shape allows
+        label_type = {}
         for el in fgg.terminals():
             w = fgg.factors[el.name].weights
             if w.ndim == 2 and w.shape[0] == w.shape[1] and w.shape[0] > 1 and ctx.rng.random() < 0.5:
                 from fggs.indices import PhysicalAxis
                 kx = PhysicalAxis(w.shape[0])
                 fgg.factors[el.name].weights = PatternedTensor(w.to_dense().diagonal().clone(), (kx,), (kx, kx), 0.)
+            elif w.ndim >= 1 and ctx.rng.random() < 0.6:
+                # an arbitrary pattern of the right shape (products, sums, shared and permuted physical axes, non-zero and
+                # infinite defaults), virtual axes permuted relative to the physical ones
+                from . import ptgen
+                perm = ctx.rng.sample(range(w.ndim), w.ndim)
+                inv = [perm.index(i) for i in range(w.ndim)]
+                # one index type per node label (the library's typing discipline for sum/product axes: all axes over the same
+                # domain must decompose it the same way, see C07)
+                types = [label_type.setdefault(el.type[i].name, type_of_numel(ctx.rng, w.shape[i])) for i in perm]
+                pt = ptgen.random_pt(ctx.rng, types, dtype=torch.get_default_dtype(), values=[0.0, 1.0, 2.0, 3.0, 0.5, 5.0],
+                                     defaults=[0.0, 0.0, 1.0, math.inf, 2.0], p_dense=0.2, special_values=(math.inf, 0.0)).permute(inv)
+                assert tuple(pt.shape) == tuple(w.shape)
+                fgg.factors[el.name].weights = pt
+                ctx.count('fgg.random-pattern-weights')
         j = formats.fgg_to_json(fgg)
         ctx.case(dict(fgg_json_keys=list(j['interpretation']['factors'])), ('fgg', k), sample_every=50)
         ctx.count('fgg')
@@ -260,7 +291,7 @@ def run_fgg(ctx):
         try:
             z1 = fggs.sum_product(fgg, method='fixed-point').to_dense()
             z2 = fggs.sum_product(f2, method='fixed-point').to_dense()
-            if z1.shape != z2.shape or not bool(((z1 == z2) | ((z1 != z1) & (z2 != z2))).all()):
+            if z1.shape != z2.shape or not bool(((z1 == z2) | (z1 != z1) | (z2 != z2)).all()):   # NaN (0 * inf) is outside the claim
                 bad.append(f'sum_product differs: {z1.tolist()} vs {z2.tolist()}')
         except Exception as e:  # noqa
             bad.append('sum_product raised ' + repr(e))
